@@ -135,6 +135,10 @@ THIN_OPS = ["NewFat", "NewThin", "Clone", "CloneFrom", "Drop", "IntoThin", "From
             "ThinFromRaw", "ThinIntoPtr", "ThinFromPtr", "Enter", "Exit", "Replace", "Swap", "GetMut"]
 
 
+# the observer cases whose handle is a ThinArc: a panicking / count-reading payload impl (7..12, 31..36), a failing sink (53..56)
+THIN_OBSERVERS = {"observe": tuple(range(7, 13)) + tuple(range(31, 37)) + tuple(range(53, 57))}
+
+
 def thin_cfg(ops, nslots, nblocks, frames, maxlen):
     return "\n".join(["SPECIFICATION MCSpec", "CONSTANTS", "  NSlots = %d" % nslots, "  NBlocks = %d" % nblocks,
                       "  MaxFrames = %d" % frames, "  MaxLen = %d" % maxlen, "  KeepHist = TRUE", "  Ops = %s" % S.tla_set(ops),
@@ -169,7 +173,8 @@ def c15(tier, seed):
                 lay("C15", tier, "layout_matrix_q"),
                 # a block built through the uninit constructors with a recorded length of its own, then made thin
                 stage(CT.ctor_stage, "C15", tier, "ctor_uninit_q", ["fhi", "thin", "collect", "zst"], True, only_cats=["contents", "baddrop", "drops", "overrun", "crash", "panicked", "leak"], only_k={"zst": (15, 24)}),
-                thin("C15", tier, "thin_reclen_q", ["NewFat", "NewThin", "Clone", "Drop", "IntoThin", "FromThin", "ProtFromThin", "ProtIntoThin"], 3, 2, 1, 2)] + swaps("C15", tier, seed, hows=("uninit",))
+                thin("C15", tier, "thin_reclen_q", ["NewFat", "NewThin", "Clone", "Drop", "IntoThin", "FromThin", "ProtFromThin", "ProtIntoThin"], 3, 2, 1, 2),
+            stage(LY.gates_stage, "C15", tier, "gates_q", gates=["deprecated"])] + swaps("C15", tier, seed, hows=("uninit",))
     return [uninit("C15", tier, "uninit_t", 3, 2, 3), uninit("C15", tier, "uninit_t4", 4, 2, 2),
             uninit("C15", tier, "uninit_walks_t", 5, 4, 5, simulate=(5000, 60, seed)),
             uninit("C15", tier, "uninit_long_t", 3, 2, 2, scale=9), uninit("C15", tier, "uninit_long17_t", 2, 2, 3, scale=17),
@@ -178,7 +183,8 @@ def c15(tier, seed):
             stage(CT.ctor_stage, "C15", tier, "release_t", ["release"], True, only_cats=["frees", "drops", "baddrop", "leak", "crash", "panicked"]),
             lay("C15", tier, "layout_matrix_t"),
             stage(CT.ctor_stage, "C15", tier, "ctor_uninit_t", ["fhi", "thin", "collect", "zst"], True, only_cats=["contents", "baddrop", "drops", "overrun", "crash", "panicked", "leak"], only_k={"zst": (15, 24)}),
-            thin("C15", tier, "thin_reclen_t", ["NewFat", "NewThin", "Clone", "Drop", "IntoThin", "FromThin", "ProtFromThin", "ProtIntoThin"], 4, 2, 1, 3)] + swaps("C15", tier, seed, hows=("uninit",))
+            thin("C15", tier, "thin_reclen_t", ["NewFat", "NewThin", "Clone", "Drop", "IntoThin", "FromThin", "ProtFromThin", "ProtIntoThin"], 4, 2, 1, 3),
+            stage(LY.gates_stage, "C15", tier, "gates_t", gates=["deprecated"])] + swaps("C15", tier, seed, hows=("uninit",))
 
 
 def c06(tier, seed):
@@ -260,15 +266,15 @@ def c10(tier, seed):
                 thin("C10", tier, "thin_walks_q", THIN_OPS, 6, 4, 2, 3, simulate=(1000, 40, seed)),
                 lay("C10", tier, "layout_matrix_q"), inj("C10", tier),
             # "every ThinArc obtainable through the safe API": also from iterators that misreport or change their length
-            stage(CT.ctor_stage, "C10", tier, "ctor_thin_" + tier[0], ["thin", "zst"], True,
-                  only_cats=["thin", "contents", "overrun", "layout", "baddrop", "crash", "count"])] + swaps("C10", tier, seed, hows=("thin",))
+            stage(CT.ctor_stage, "C10", tier, "ctor_thin_" + tier[0], ["thin", "zst", "observe"], True,
+                  only_cats=["thin", "contents", "overrun", "layout", "baddrop", "crash", "count", "drops", "poison"], only_k=THIN_OBSERVERS)] + swaps("C10", tier, seed, hows=("thin",))
     return [thin("C10", tier, "thin_t", THIN_OPS, 4, 2, 2, 2), thin_lengths("C10", tier),
             thin("C10", tier, "thin_nostd_t", THIN_OPS, 3, 2, 2, 2, harness_cfg="b"), thin("C10", tier, "thin_debug_t", THIN_OPS, 3, 2, 2, 2, harness_cfg="d"),
             thin("C10", tier, "thin_walks_t", THIN_OPS, 6, 4, 2, 3, simulate=(5000, 80, seed)),
             lay("C10", tier, "layout_matrix_t"), inj("C10", tier),
             # "every ThinArc obtainable through the safe API": also from iterators that misreport or change their length
-            stage(CT.ctor_stage, "C10", tier, "ctor_thin_" + tier[0], ["thin"], True,
-                  only_cats=["thin", "contents", "overrun", "layout", "baddrop", "crash", "count"])] + swaps("C10", tier, seed, hows=("thin",))
+            stage(CT.ctor_stage, "C10", tier, "ctor_thin_" + tier[0], ["thin", "observe"], True,
+                  only_cats=["thin", "contents", "overrun", "layout", "baddrop", "crash", "count", "drops", "poison"], only_k=THIN_OBSERVERS)] + swaps("C10", tier, seed, hows=("thin",))
 
 
 def c01(tier, seed):
@@ -311,13 +317,15 @@ def c03(tier, seed):
                 mm("C03", tier, "mm_uniq_q", [("c03_2x3", mops, 2, 3, 2, False), ("c03_3x2", mops, 3, 2, 1, False)]),
                 tr("C03", tier, "threads_q", seed), inj("C03", tier), thin("C03", tier, "thin_uniq_" + tier[0], THIN_OPS, 3 if tier == "quick" else 4, 2, 1, 1),
             stage(CT.ctor_stage, "C03", tier, "zst_" + tier[0], ["zst"], True, only_cats=["verdict", "panicked", "crash"]),
-            stage(LY.surface_stage, "C03", tier, "surface_" + tier[0])] + swaps("C03", tier, seed, hows=("init", "thin"))
+            stage(LY.surface_stage, "C03", tier, "surface_" + tier[0]),
+            stage(LY.gates_stage, "C03", tier, "gates_" + tier[0], gates=["is_unique", "get_mut", "try_unique", "try_from", "deprecated"])] + swaps("C03", tier, seed, hows=("init", "thin"))
     return [sized("C03", tier, "sized_uniq_t", ops + ["Unsize", "IntoRawDyn", "FromRawDyn"], 4, 2, 1),
             mm("C03", tier, "mm_uniq_t", [("c03_2x4", mops, 2, 4, 2, False), ("c03_3x3", mops, 3, 3, 1, False),
                                           ("c03_3x2h", mops, 3, 2, 1, True)]),
             tr("C03", tier, "threads_t", seed), inj("C03", tier), thin("C03", tier, "thin_uniq_" + tier[0], THIN_OPS, 3 if tier == "quick" else 4, 2, 1, 1),
             stage(CT.ctor_stage, "C03", tier, "zst_" + tier[0], ["zst"], True, only_cats=["verdict", "panicked", "crash"]),
-            stage(LY.surface_stage, "C03", tier, "surface_" + tier[0])] + swaps("C03", tier, seed, hows=("init", "thin"))
+            stage(LY.surface_stage, "C03", tier, "surface_" + tier[0]),
+            stage(LY.gates_stage, "C03", tier, "gates_" + tier[0], gates=["is_unique", "get_mut", "try_unique", "try_from", "deprecated"])] + swaps("C03", tier, seed, hows=("init", "thin"))
 
 
 def c04(tier, seed):
@@ -355,7 +363,8 @@ def c08(tier, seed):
                 mm("C08", tier, "mm_cow_q", [("c08_2x3", mops, 2, 3, 2, False), ("c08_3x2", mops, 3, 2, 1, False)]),
                 tr("C08", tier, "threads_q", seed), inj("C08", tier), lay("C08", tier, "layout_matrix_q"),
             stage(CT.ctor_stage, "C08", tier, "zst_q", ["zst"], True, only_cats=["verdict", "ncl", "drops", "leak", "panicked", "crash"]),
-            stage(LY.surface_stage, "C08", tier, "surface_q")] + swaps("C08", tier, seed, hows=("init",))
+            stage(LY.surface_stage, "C08", tier, "surface_q"),
+            stage(LY.gates_stage, "C08", tier, "gates_q", gates=["make_mut", "make_unique"])] + swaps("C08", tier, seed, hows=("init",))
     return [sized("C08", tier, "sized_cow_t", ops, 4, 3, 1, hows=("new", "newB")),
             sized("C08", tier, "sized_cow_plain_t", ops, 3, 3, 1, hows=("new", "newB"), harness_cfg="p", cats=PLAIN_CATS),
             mm("C08", tier, "mm_cow_t", [("c08_2x4", mops, 2, 4, 2, False), ("c08_3x2", mops, 3, 2, 2, False),
@@ -363,7 +372,8 @@ def c08(tier, seed):
                                          ("c08_3x3", ["clone", "drop", "make_mut"], 3, 3, 1, False)]),
             tr("C08", tier, "threads_t", seed), inj("C08", tier), lay("C08", tier, "layout_matrix_t"),
             stage(CT.ctor_stage, "C08", tier, "zst_t", ["zst"], True, only_cats=["verdict", "ncl", "drops", "leak", "panicked", "crash"]),
-            stage(LY.surface_stage, "C08", tier, "surface_t")] + swaps("C08", tier, seed, hows=("init",))
+            stage(LY.surface_stage, "C08", tier, "surface_t"),
+            stage(LY.gates_stage, "C08", tier, "gates_t", gates=["make_mut", "make_unique"])] + swaps("C08", tier, seed, hows=("init",))
 
 
 def c09(tier, seed):
@@ -377,7 +387,8 @@ def c09(tier, seed):
             lay("C09", tier, "layout_matrix_" + tier[0]),
             stage(CT.ctor_stage, "C09", tier, "zst_" + tier[0], ["zst"], True, only_cats=["drops", "leak", "layout", "panicked", "crash"]),
             # co-owners of other kinds: a ThinArc whose with_arc_mut callback replaced the Arc leaves exact counts for a later unwrap
-            thin("C09", tier, "thin_coowners_" + tier[0], THIN_OPS, 3 if tier == "quick" else 4, 2, 1, 1)] + swaps("C09", tier, seed, hows=("init",))
+            thin("C09", tier, "thin_coowners_" + tier[0], THIN_OPS, 3 if tier == "quick" else 4, 2, 1, 1),
+            stage(LY.gates_stage, "C09", tier, "gates_" + tier[0], gates=["try_unwrap", "unwrap_or_clone", "try_unique", "try_from"])] + swaps("C09", tier, seed, hows=("init",))
     return [sized("C09", tier, "sized_unwrap_t", ops, 4, 2, 1),
             mm("C09", tier, "mm_unwrap_t", [("c09_2x4", mops, 2, 4, 2, False), ("c09_3x2", mops, 3, 2, 2, False),
                                             ("c09_3x3", ["try_unwrap", "unwrap_or_clone", "drop"], 3, 3, 1, False)]),
@@ -386,7 +397,8 @@ def c09(tier, seed):
             lay("C09", tier, "layout_matrix_" + tier[0]),
             stage(CT.ctor_stage, "C09", tier, "zst_" + tier[0], ["zst"], True, only_cats=["drops", "leak", "layout", "panicked", "crash"]),
             # co-owners of other kinds: a ThinArc whose with_arc_mut callback replaced the Arc leaves exact counts for a later unwrap
-            thin("C09", tier, "thin_coowners_" + tier[0], THIN_OPS, 3 if tier == "quick" else 4, 2, 1, 1)] + swaps("C09", tier, seed, hows=("init",))
+            thin("C09", tier, "thin_coowners_" + tier[0], THIN_OPS, 3 if tier == "quick" else 4, 2, 1, 1),
+            stage(LY.gates_stage, "C09", tier, "gates_" + tier[0], gates=["try_unwrap", "unwrap_or_clone", "try_unique", "try_from"])] + swaps("C09", tier, seed, hows=("init",))
 
 
 def c12(tier, seed):
@@ -430,6 +442,9 @@ def any_replay(p, v):
         return LY.replay_widths(p, v)
     if v.get("key", "").startswith("surface:"):
         return ["[tlc] " + e for x in LY.surface_stage(p, "quick", "replay")["violations"] for e in x["errors"]]
+    if v.get("key", "").startswith("gates:"):
+        g = v.get("row", {}).get("gate")
+        return ["[tlc] " + e for x in LY.gates_stage(p, "quick", "replay", gates=[g] if g else None)["violations"] for e in x["errors"]]
     if v.get("key", "").startswith(("matrix:", "crash-in-matrix")):
         return LY.replay_layout(p, v)
     if v.get("key", "").startswith(("ctor:", "allocfail:", "crash-in-ctor")):
